@@ -203,6 +203,11 @@ func (s *Server) newPartition(protoPartition *proto.Partition, recovered bool, c
 	if err != nil {
 		return nil, errors.Wrap(err, "failed to create commit log")
 	}
+	// The readonly flag lives in the metadata, not in the log: carry it over
+	// to the new log (snapshot restore, resume of a paused partition).
+	if protoPartition.Readonly {
+		log.SetReadonly(true)
+	}
 
 	replicas := make(map[string]struct{}, len(protoPartition.Replicas))
 	for _, replica := range protoPartition.Replicas {
